@@ -1336,8 +1336,8 @@ def run(ctx):
     run_histories(ctx, hist)
     run_histories(ctx, [gen_view_history(rng) for _ in range(ctx.scale(40, 500))], tag='c06v')
     tie_options(ctx)
-    cases = [gen_case(rng) for _ in range(ctx.scale(380, 6000))]
-    cases += [gen_case(rng, small=True) for _ in range(ctx.scale(120, 1500))]
+    cases = [gen_case(rng) for _ in range(ctx.scale(320, 6000))]
+    cases += [gen_case(rng, small=True) for _ in range(ctx.scale(100, 1500))]
     cases += [gen_case(rng, path='v4', small=True) for _ in range(ctx.scale(6, 200))]
     for i in range(0, len(cases), 200):
         run_cases(ctx, cases[i:i + 200])
